@@ -64,6 +64,14 @@ Section Spec.
     | None => None
     end.
 
+  (** what a [flatten] member may be: a type whose [from_list] is the derived one *)
+  Fixpoint flat_target (t : ty) : bool :=
+    match t with
+    | TStructR _ _ | TEnumR _ _ _ => true
+    | TNewtypeR _ t' => flat_target t'
+    | _ => false
+    end.
+
   Fixpoint all_some {A} (l : list (option A)) : option (list A) :=
     match l with
     | [] => Some []
@@ -84,12 +92,10 @@ Section Spec.
               if fi_skip f then default_value cdef f ft
               else if fi_flatten f then
                 (* the flatten member parses the unclaimed items, in order, as a list *)
-                (* (a derived struct or enum: the library's Option<T> does not take a list) *)
-                match ft with
-                | TStructR _ _ | TEnumR _ _ _ =>
-                    expected ft (NList (mkInfo (0,0,0,0)%N "") (mkPath (mkInfo (0,0,0,0)%N "") false []) (mkInfo (0,0,0,0)%N "") unclaimed)
-                | _ => None
-                end
+                (* (a derived struct or enum, possibly behind derived newtypes: the library's Option<T> does not take a list) *)
+                if flat_target ft
+                then expected ft (NList (mkInfo (0,0,0,0)%N "") (mkPath (mkInfo (0,0,0,0)%N "") false []) (mkInfo (0,0,0,0)%N "") unclaimed)
+                else None
               else
                 let occ := if is_first_named all_fs f then filter (fun it => str_eqb (item_name it) (fi_name f)) items else [] in
                 let conv_one it :=
